@@ -35,6 +35,7 @@ theorem step_eval (s : Hist) (q : List Act) :
 def Op.target : Op → Option Nat
   | .eval _ => none
   | .mutData i _ => some i
+  | .mutInner i _ => some i
   | .mutVar i _ _ => some i
   | .setVar i _ _ => some i
   | .setMeta i _ _ _ _ _ => some i
@@ -85,6 +86,18 @@ theorem caller_cases (s : Hist) (op : Op) (i : Nat) (ht : op.target = some i) :
         obtain ⟨a, l'⟩ := al
         obtain ⟨hd, -, hv⟩ := listAt_some hl
         exact Or.inr ⟨st, a, _, rfl, by simp [mem_cellsState, hd, cellsHV], Tame.val hv _, rfl⟩
+  | mutInner j l =>
+    obtain rfl : j = i := by simpa [Op.target] using ht
+    simp only [step]
+    cases hn : s.nth j with
+    | none => exact Or.inl rfl
+    | some st =>
+      simp only
+      split
+      · rename_i a x rest hl
+        obtain ⟨hd, -, hv⟩ := listAt_some hl
+        exact Or.inr ⟨st, a, _, rfl, by simp [mem_cellsState, hd, cellsHV], Tame.val hv _, rfl⟩
+      · exact Or.inl rfl
   | mutVar j name l =>
     obtain rfl : j = i := by simpa [Op.target] using ht
     simp only [step]
